@@ -196,7 +196,8 @@ _REQ_CODES = {"Diff1": "model event log (outcomes, identities, exports seen) dif
               "Implthrown-value-not-identical": "the value caught by the requirer is not the thrown value", "Implrequire-crashed": "require crashed",
               "Implrealfs-one-file-two-modules": "real directory with symbolic links: requests that the resolver canonicalises to one file gave two modules or two evaluations",
               "Implrealfs-require-failed": "real directory with symbolic links: a request failed",
-              "Implthrown-value-did-not-reach-the-requirer": "a module body threw, but the require() evaluating it did not report that very value next"}
+              "Implthrown-value-did-not-reach-the-requirer": "a module body threw, but the require() evaluating it did not report that very value next",
+              "Implmodule-body-completed-twice": "the body of one file ran to its end twice in one runtime (only a module whose evaluation failed is evaluated afresh)"}
 
 _REQ_TRUST = ["goja: evaluation of the rendered JavaScript (assignment, call, try/catch, throw, Map identity), CaptureCallStack source names",
               "path/filepath Join/Clean/Dir/Base (modelled on a cleaned representation, validated by the run)"]
